@@ -148,15 +148,15 @@ var props = map[string]*propCfg{
 		ID: "C15", Level: "model_checking", Exhaustive: true,
 		Rule:        "TLC enumerates every ordered pair over the domain: every Go numeric kind of the run x every one of 31 boundary points it represents exactly (-2^53 .. 2^53: negatives, zero, halves, min/max of the narrow kinds and their neighbours) plus 13 strings (empty, numeric-looking, prefixes of each other, the %v text of 2147483647 as an integer kind and as a float kind); triples by quantifying over the third value in the invariants. Every pair is exported; the harness builds the real Go values, checks the specification's %v text against fmt, calls compare.Compare, runs the six comparison operators of WHERE on a natively typed row, ORDER BY in both directions on the two values (pairs that are not equal), IN over the other value and an equi-join of two one-row tables (joined iff cmp = 0). Non-trivial: operands of different numeric kinds, or a string operand; distinct = distinct ordered pairs. Round 4: points 2^63, 2^64 - 2048 and the largest float32.",
 		Assumptions: append([]string{"float64 holds every point of the domain exactly (|x| <= 2^53): 'within the exactly-representable range' of the statement"}, baseAssumptions...),
-		Quick:       []legCfg{mc("pairs", "MC_C15", "C15_quick.cfg", 10*time.Minute)},
-		Thorough:    []legCfg{mc("pairs", "MC_C15", "C15_thorough.cfg", 30*time.Minute)},
+		Quick:       []legCfg{mc("pairs", "MC_C15", "C15_quick.cfg", 10*time.Minute), {Kind: "exec", Name: "floats", Mode: "floats", Timeout: 5 * time.Minute}},
+		Thorough:    []legCfg{mc("pairs", "MC_C15", "C15_thorough.cfg", 30*time.Minute), {Kind: "exec", Name: "floats", Mode: "floats", Timeout: 5 * time.Minute}},
 	},
 	"C18": {
 		ID: "C18", Level: "model_checking", Exhaustive: true,
 		Rule:        "TLC enumerates call expressions over a value domain of 16 scalars (NULL, booleans, integers, a fraction, strings incl. empty, numeric-looking and non-ASCII) and 7 arrays (empty, flat, nested two and three levels, with NULLs): every unary function x every value; ELEMENTAT x arrays x indices -1..4 and non-numeric indices; ARRAY / CONCAT x all argument tuples of length 0-2 (thorough 0-3); IF x {true,false,NULL} x value pairs; CHANGETYPE x scalars x 6 type names incl. upper-case and unknown, plus string->double/integer round trips; DATERANGE; CONSTANT x known/unknown keys x configured/not; ENCODE x 5 base names; DECODE(ENCODE(v,b),b') x same / unknown base; DECODE of garbage; HASH x 6 algorithm names; every fixed-arity function x 0-3 arguments. Each case is executed FROM dual, FROM a one-row table, (scalar arguments) with literal arguments, inside a CTE body, a derived table and both sides of a UNION ALL, and FROM a two-row table whose second row holds the rotated arguments (the specification exports that row's value too: a call is a function of its own row's arguments); values, errors, opaque-text shape (hex length) and purity (same specification value -> same text, across cases) are compared. Every case counts as non-trivial; distinct = distinct (expression, arguments, constants).",
 		Assumptions: append([]string{"ENCODE / HASH are uninterpreted in the specification: bit patterns of base64 / base32 / hex / SHA are not modelled, only round trip, purity and length"}, baseAssumptions...),
-		Quick:       []legCfg{mc("builtins", "MC_C18", "C18_quick.cfg", 10*time.Minute)},
-		Thorough:    []legCfg{mc("builtins", "MC_C18", "C18_thorough.cfg", 30*time.Minute)},
+		Quick:       []legCfg{mc("builtins", "MC_C18", "C18_quick.cfg", 10*time.Minute), {Kind: "exec", Name: "bigroundtrip", Mode: "bigroundtrip", Timeout: 5 * time.Minute}},
+		Thorough:    []legCfg{mc("builtins", "MC_C18", "C18_thorough.cfg", 30*time.Minute), {Kind: "exec", Name: "bigroundtrip", Mode: "bigroundtrip", Timeout: 5 * time.Minute}},
 	},
 	"C20": {
 		ID: "C20", Level: "model_checking", Exhaustive: true,
